@@ -17,6 +17,8 @@ var StringItems = []struct {
 	{"esc-sl", "\\/"},
 	{"esc-b", "\\b"},
 	{"u-ascii", bu + "0041"},
+	{"u-quote", bu + "0022"},
+	{"u-bs", bu + "005c"},
 	{"u-latin", bu + "00e9"},
 	{"u-nul", bu + "0000"},
 	{"u-ctl", bu + "001f"},
